@@ -29,6 +29,9 @@ let parse_val t : value =
   | 'r' -> VRaw (zi (tail t))
   | _ -> failwith ("val " ^ t)
 
+let flag_tok = function None -> "N" | Some false -> "F" | Some true -> "T"
+let atx_token (t : atx) = zs t.atx_id ^ "h" ^ zs t.atx_height ^ "s" ^ flag_tok t.atx_spent
+
 let val_token = function
   | VInt z -> "i" ^ zs z
   | VNone -> "N"
@@ -39,6 +42,20 @@ let val_token = function
   | VUtxos (b :: tl) -> "L" ^ string_of_int (1 + List.length tl) ^ "v" ^ zs b
   | VDict id -> "d" ^ zs id
   | VRaw k -> "r" ^ zs k
+  | VTxs l -> "X" ^ String.concat "." (List.map atx_token l)
+  | VUtxoL l -> "U" ^ String.concat "." (List.map (fun u -> zs u.u_txid ^ "n" ^ zs u.u_n ^ "v" ^ zs u.u_value ^ "h" ^ zs u.u_height) l)
+  | VAtx t -> "x" ^ atx_token t
+  | VBlock (h, cnt, txs, parsed) ->
+    "B" ^ zs h ^ "c" ^ zs cnt ^ ":" ^
+    String.concat "." (List.map (fun t -> if parsed then atx_token t else "i" ^ zs t.atx_id) txs)
+
+(* inside .results the list answers are shown by their transaction ids only (the objects are updated in place) *)
+let res_val_token = function
+  | VTxs l -> "Xi" ^ String.concat "." (List.map (fun t -> zs t.atx_id) l)
+  | VUtxoL l -> "Ui" ^ String.concat "." (List.map (fun u -> zs u.u_txid) l)
+  | VAtx t -> "xi" ^ zs t.atx_id
+  | VBlock (h, _, _, _) -> "Bi" ^ zs h
+  | v -> val_token v
 
 let outcome_of static tok : outcome =
   match static with
@@ -64,7 +81,7 @@ let wres_token = function
   | WOtherErr -> "OTHERERR"
 
 let res_s (r : (BZ.t * value) list) =
-  if r = [] then "-" else String.concat "," (List.map (fun (n, v) -> zs n ^ ":" ^ val_token v) r)
+  if r = [] then "-" else String.concat "," (List.map (fun (n, v) -> zs n ^ ":" ^ res_val_token v) r)
 let err_s (e : (BZ.t * errtok) list) =
   if e = [] then "-" else String.concat "," (List.map (fun (n, t) -> zs n ^ ":" ^ (match t with EExc i -> "e" ^ zs i | EEmpty -> "E")) e)
 
@@ -109,7 +126,108 @@ let run_step net (c, clock, outs) step =
     end
   | _ -> failwith "step"
 
+(* ---- the address index (mode xfile / xoff): <net> <mode> W:<tx>,<tx>,.. <step> ..
+   tx = height.src.dst.oidx.value.flag.storable   src: F | j (spends the observed output of world tx j)
+   dst: 0 | 1 | B    flag: N | F | T   (transaction ids are positions in the world) *)
+let parse_world w : (atx * bool) array =
+  let body = String.sub w 2 (String.length w - 2) in
+  let specs = if body = "" then [] else String.split_on_char ',' body in
+  let arr = Array.make (List.length specs) None in
+  let acc = Array.make (List.length specs) false in
+  List.iteri (fun k sp ->
+    match String.split_on_char '.' sp with
+    | [h; src; dst; oidx; v; fl; stor] ->
+      let dst_o = (match dst with "B" -> None | d -> Some (zi d)) in
+      let (src_o, prev) =
+        if src = "F" then (None, (BZ.of_int (1000 + k), BZ.zero))
+        else (let j = int_of_string src in
+              match arr.(j) with
+              | Some (tj : atx) ->
+                ((match tj.atx_dst with Some a -> Some (a, tj.atx_value) | None -> None), (tj.atx_id, tj.atx_oidx))
+              | None -> failwith "world src") in
+      acc.(k) <- (fl = "A");
+      arr.(k) <- Some { atx_id = BZ.of_int k; atx_height = zi h; atx_storable = (stor = "1"); atx_src = src_o;
+                        atx_prev = prev; atx_dst = dst_o; atx_oidx = zi oidx; atx_value = zi v;
+                        atx_spent = (match fl with "N" | "A" -> None | "F" -> Some false | "T" -> Some true | _ -> failwith "flag") }
+    | _ -> failwith "world tx") specs;
+  Array.mapi (fun k -> function Some t -> (t, acc.(k)) | None -> failwith "world") arr
+
+(* what a provider that knows the first m transactions reports: flag A = the true spent status within its view *)
+let view_of (world : (atx * bool) array) m : atx list =
+  let m = min m (Array.length world) in
+  let v = Array.to_list (Array.sub world 0 m) in
+  List.map (fun ((t : atx), accurate) ->
+    if accurate then
+      { t with atx_spent = Some (List.exists (fun ((s : atx), _) ->
+          BZ.equal (fst s.atx_prev) t.atx_id && BZ.equal (snd s.atx_prev) t.atx_oidx) v) }
+    else t) v
+
+(* a block is known to a provider when all its transactions are: the view is cut back to complete blocks *)
+let block_view (world : (atx * bool) array) m : atx list =
+  let v = view_of world m in
+  let n = Array.length world in
+  let m = min m n in
+  List.filter (fun (t : atx) ->
+    BZ.sign t.atx_height > 0 &&
+    not (List.exists (fun k -> BZ.equal (fst world.(k)).atx_height t.atx_height) (List.init (n - m) (fun i -> m + i)))) v
+
+let aoutcome_of ?(blocks = false) world static tok : aoutcome =
+  match static with
+  | "u" | "k" | "m" | "x" -> AOut (outcome_of static tok)
+  | _ ->
+    if tok.[0] = 'v' then
+      (let m = int_of_string (tail tok) in AView (if blocks then block_view world m else view_of world m))
+    else AOut (outcome_of static tok)
+
+let opt_id s = if s = "-" then None else if s = "x" then Some (BZ.of_int 9999) else Some (zi s)
+
+let xmeth m arg : xmethod =
+  match m with
+  | "gettransactions" | "getutxosx" ->
+    (match String.split_on_char '.' arg with
+     | [a; after; limit] ->
+       if m = "gettransactions" then XGettransactions (zi a, opt_id after, zi limit) else XGetutxos (zi a, opt_id after, zi limit)
+     | _ -> failwith "xarg")
+  | "gettransactionx" -> XGettransaction (match opt_id arg with Some k -> k | None -> failwith "txid")
+  | "cacheinfo" -> XCacheinfo (zi arg)
+  | "getblock" ->
+    (match String.split_on_char '.' arg with
+     | [h; parse; page; limit] -> XGetblock (zi h, parse = "1", zi page, zi limit)
+     | _ -> failwith "getblock arg")
+  | _ -> failwith ("xmethod " ^ m)
+
+let kflag = function None -> "N" | Some true -> "T" | Some false -> "F"
+
+let run_xstep net world (c, clock, outs) step =
+  match String.split_on_char '/' step with
+  | [m; arg; minp; maxp; maxe; dt; provs] ->
+    let ps = if provs = "-" then [] else List.map (fun t ->
+        match String.split_on_char ':' t with
+        | [id; prio; tb; st; bc; q] -> ({ p_id = zi id; p_prio = zi prio; p_tb = zi tb }, (st, bc, q))
+        | _ -> failwith "prov") (String.split_on_char '+' provs) in
+    let order = lib_order (List.map fst ps) in
+    let find id = snd (List.find (fun (p, _) -> BZ.equal p.p_id id) ps) in
+    let bc_ps = List.map (fun p -> let (st, bc, _) = find p.p_id in (p.p_id, outcome_of st bc)) order in
+    let q = List.map (fun p -> let (st, _, q) = find p.p_id in (p.p_id, aoutcome_of ~blocks:(m = "getblock") world st q)) order in
+    let st = { st_minp = zi minp; st_maxp = zi maxp; st_maxe = zi maxe; st_net = net } in
+    let now = BZ.add (BZ.of_int 1000000) clock in
+    let dt = zi dt in
+    let (obs, c') = lib_xstep st now dt bc_ps q (xmeth m arg) c in
+    let s = match obs with
+      | XInitErr -> "INITERR"
+      | XInitOther -> "INITOTHERERR"
+      | XObs (w, cn, k, r, e) -> wres_token w ^ " R=" ^ res_s r ^ " E=" ^ err_s e ^ " N=" ^ zs cn ^ " K=" ^ kflag k in
+    let clock' = match obs with XInitErr | XInitOther -> clock | _ -> BZ.add clock dt in
+    (c', clock', s :: outs)
+  | _ -> failwith "step"
+
 let dispatch = function
+  | net :: mode :: w :: steps when (mode = "xfile" || mode = "xoff") && steps <> [] ->
+    let nw = (match net with "bitcoin" -> nw_bitcoin | "testnet" -> nw_testnet | _ -> failwith "net") in
+    let world = parse_world w in
+    let c0 = empty_xcache (mode = "xfile") in
+    let (_, _, outs) = List.fold_left (run_xstep nw world) (c0, BZ.zero, []) steps in
+    String.concat " ; " (List.rev outs)
   | net :: mode :: steps when steps <> [] ->
     let nw = (match net with "bitcoin" -> nw_bitcoin | "testnet" -> nw_testnet | _ -> failwith "net") in
     let c0 = empty_cache (mode = "file") in
